@@ -66,7 +66,7 @@ Section Inv.
     | WNext w => t_cur t = t_tgt t /\ w <= S (t_tgt t) /\
                  (w <= t_tgt t -> forall y, y <= t_tgt t -> complete y (getc y cl))
     | ObsInst => t_cur t = t_tgt t /\ forall y, y <= t_tgt t -> complete y (getc y cl)
-    | Done => t_cur t = t_tgt t /\ t_obs t <> None
+    | Done => t_cur t = t_tgt t /\ t_obs t <> None /\ pub (getc (t_tgt t) cl) <> None
     | _ => True
     end.
 
@@ -162,6 +162,7 @@ Section Inv.
     - destruct H4 as [A [B C]]; split; [auto|split; [auto|]]. apply (Hm (t_tgt t)); auto.
     - destruct H4 as [A [B C]]; split; [auto|split; [auto|]]. intros Hw y Hy. apply (Hm y); auto.
     - destruct H4 as [A B]; split; auto. intros y Hy. apply (Hm y); auto.
+    - destruct H4 as [A [B C]]; split; [auto|split; [auto|]]. apply (Hm (t_tgt t)); auto.
   Qed.
 
   Definition keeps (l l' : option (nat * nat)) (i : nat) : Prop :=
